@@ -51,7 +51,13 @@ RULE = (
     "GY94 / CNFGTR / MG94GTR likelihood functions with histories in lf_families) with alignments that hold a codon which is a sense codon only in that "
     "code (or, code 12, one translated differently): through to_json, to_rich_dict, pickle, copy.copy (models) and copy.deepcopy the copy must have "
     "the same genetic code (ID, name, 64-codon table), the same states, parameter values, psubs and lnL; the code is compared first and a copy with "
-    "another code is reported once per route (<route>/genetic-code) without applying the remaining observers. Registry keys without a generator are reported as classes "
+    "another code is reported once per route (<route>/genetic-code) without applying the remaining observers. Sequences handed out by a new-style collection "
+    "(make_unaligned_seqs(..., new_type=True) of 1-3 dna / rna / protein / text sequences, after 0-2 of rc / take_seqs (also negate=True, reordering) / rename_seqs, then "
+    "get_seq(name), then 0-3 of slice / stride / reversed stride / rc; single-span features on the collection when it was not reverse complemented or renamed) are views on the "
+    "collection's storage: sub-check collection_seq sends them through to_json, to_rich_dict, pickle, copy.copy, copy.deepcopy, Sequence.copy() and Sequence.copy(sliced=False); the "
+    "copy must display the string of the plain-string model (compared first: a copy with another string is reported once per route as <route>/str) and have the same length, name, "
+    "class, moltype, parent_coordinates, annotation_offset, info and (pickle / copy routes) features; signatures of views other than the whole plus strand carry the tag "
+    "[collection-backed-view]. Registry keys without a generator are reported as classes "
     "'uncovered:<key>'. Non-trivial = the object is not freshly constructed (history length >= 1, or derived alphabet / keyword "
     "variant model); distinct = distinct case encodings."
 )
@@ -84,6 +90,11 @@ ASSUMPTIONS = [
     "the model's state in the sense of the property (it fixes the states and which exchanges are silent / replacement), so it is observed through model.gc (ID, name, translation of all 64 codons) and "
     "get_motifs(); copy.copy / copy.deepcopy are treated as routes of these models and likelihood functions (they use the pickle protocol; copy.copy of a likelihood function would share its state and "
     "is not used); a model built with a user-made GeneticCode object (no NCBI id) is not generated",
+    "sequences of new-style collections (collection_seq): Sequence.to_rich_dict records annotation_offset = start of the view on its parent and the view's step, and the make_seq based sequences "
+    "of the sequence sub-check keep parent_coordinates through JSON / rich dict, so the same is required of collection-backed ones; Sequence.copy documents 'The offset is retained' for "
+    "sliced=True, and sliced=False copies the view unchanged: parent_coordinates are compared on both; copy.copy / copy.deepcopy use the pickle protocol; the collection's info is not "
+    "handed to its sequences and is not compared; features only where the collection documents keeping the link to its annotation_db (no rc, no rename_seqs) and only through routes that "
+    "carry the db; if the view handed out by the collection already disagrees with the string / name model (C01 / C03) the case is not used",
 ]
 
 ROUTES = ("json", "rich_dict", "pickle")
@@ -223,6 +234,8 @@ def send(s: Soft, sig: str, obj, route: str):
         import copy
 
         return s.call(f"{sig}/{route}/serialise", copy.copy if route == "copy" else copy.deepcopy, obj)
+    if route in ("seq.copy", "seq.copy-unsliced"):  # Sequence.copy(exclude_annotations=False, sliced=True)
+        return s.call(f"{sig}/{route}/serialise", (lambda: obj.copy()) if route == "seq.copy" else (lambda: obj.copy(sliced=False)))
     raise HarnessError(f"unknown route {route}")
 
 
@@ -435,6 +448,128 @@ def exec_seq(case) -> Soft:
         elif want.get("features"):
             s.cls("features-visible")
     s.nontrivial = "history" in flags
+    return s
+
+
+# ================================================= sequences of a collection
+COLLSEQ_ROUTES = ("json", "rich_dict", "pickle", "copy", "deepcopy", "seq.copy", "seq.copy-unsliced")
+COLLSEQ_RENAMERS = {"suffix": lambda n: n + "_r", "upper": lambda n: n.upper(), "prefix": lambda n: "x." + n}
+COLLSEQ_TAG = "[collection-backed-view]"
+
+
+@st.composite
+def collseq_cases(draw):
+    mt = draw(st.sampled_from(["dna", "dna", "dna", "rna", "protein", "text"]))
+    nucleic = mt in ("dna", "rna")
+    names = ["s1", "s2", "s3"][: draw(st.integers(1, 3))]
+    seqs = {}
+    for n in names:
+        L = draw(st.integers(4, 24))
+        seqs[n] = "".join(draw(st.lists(st.sampled_from(SEQ_ALPHA[mt]), min_size=L, max_size=L)))
+    pick = draw(st.sampled_from(names))
+    ops = []
+    for _ in range(draw(st.sampled_from([0, 0, 1, 1, 2]))):
+        k = draw(st.sampled_from(["take", "rename"] + (["rc", "rc"] if nucleic else [])))
+        if k == "take":
+            others = [n for n in names if n != pick]
+            keep = draw(st.lists(st.sampled_from(others), unique=True, max_size=len(others))) if others else []
+            ops.append(["take", sorted(keep), draw(st.booleans()), draw(st.booleans())])
+        elif k == "rename":
+            ops.append(["rename", draw(st.sampled_from(sorted(COLLSEQ_RENAMERS)))])
+        else:
+            ops.append(["rc"])
+    feats = []
+    if mt == "dna" and all(o[0] == "take" for o in ops) and draw(st.integers(0, 2)) == 0:
+        L = len(seqs[pick])
+        for i in range(draw(st.integers(1, 2))):
+            a, b = sorted(draw(st.lists(st.integers(0, L), min_size=2, max_size=2, unique=True)))
+            feats.append({"biotype": draw(st.sampled_from(["gene", "exon"])), "name": f"f{i}", "spans": [[a, b]], "strand": draw(st.sampled_from(["+", "-"]))})
+    hist = draw(history_st(nucleic, max_len=3))
+    return {"moltype": mt, "seqs": seqs, "pick": pick, "coll_ops": ops, "features": feats, "history": hist}
+
+
+def exec_collseq(case) -> Soft:
+    """a Sequence handed out by a new-style collection is a view on the collection's storage (SeqDataView)"""
+    from cogent3 import make_unaligned_seqs
+
+    s = Soft("C10/")
+    mt, seqs, pick = case["moltype"], case["seqs"], case["pick"]
+    nucleic = mt in ("dna", "rna")
+
+    def build():
+        c = make_unaligned_seqs(dict(seqs), moltype=mt, new_type=True)
+        for f in case["features"]:
+            c.add_feature(seqid=pick, biotype=f["biotype"], name=f["name"], spans=[tuple(x) for x in f["spans"]], strand=f["strand"])
+        return c
+
+    ok, coll = s.call("collseq/construct", build)
+    if not ok:
+        return s
+    # model: current names (aligned with the original ones), strand of the whole collection
+    cur = {n: n for n in seqs}  # original name -> current name
+    reverse = False
+    flags = set()
+    for op in case["coll_ops"]:
+        if op[0] == "rc":
+            ok, c2 = s.call("collseq/collection/rc", coll.rc)
+            reverse = not reverse
+        elif op[0] == "take":
+            keep, negate, pick_last = op[1], op[2], op[3]
+            live = [n for n in seqs if n in cur]
+            sel = [n for n in live if n == pick or n in keep]
+            if pick_last:
+                sel = [n for n in sel if n != pick] + [pick]
+            if negate:
+                drop = [cur[n] for n in live if n not in sel]
+                if not drop:
+                    continue
+                ok, c2 = s.call("collseq/collection/take_seqs", lambda: coll.take_seqs(drop, negate=True))
+            else:
+                names = [cur[n] for n in sel]
+                ok, c2 = s.call("collseq/collection/take_seqs", lambda: coll.take_seqs(names))
+            cur = {n: cur[n] for n in sel}
+        elif op[0] == "rename":
+            fn = COLLSEQ_RENAMERS[op[1]]
+            ok, c2 = s.call("collseq/collection/rename_seqs", lambda: coll.rename_seqs(fn))
+            cur = {n: fn(v) for n, v in cur.items()}
+        else:
+            raise HarnessError(f"unknown collection operation {op}")
+        if not ok:
+            return s
+        coll = c2
+        flags.add("coll:" + op[0])
+    name = cur[pick]
+    ok, seq = s.call("collseq/get_seq", coll.get_seq, name)
+    if not ok:
+        return s
+    parent = seqs[pick]
+    full = list(range(len(parent)))
+    r = apply_seq_history(s, "collseq/", seq, full[::-1] if reverse else full, reverse, case["history"], nucleic)
+    if r is None:
+        return s
+    view, V, comp, hflags = r
+    table = COMP_RNA if mt == "rna" else COMP
+    want_str = "".join(table[parent[i]] if comp else parent[i] for i in V)
+    feats = bool(case["features"])
+    observers = [o for o in seq_observers(feats) if o[0] != "str"]
+    gate = [("str", str)]
+    want = observe(view, observers)
+    got_str = observe(view, gate)["str"]
+    if isinstance(got_str, Unobs) or got_str != want_str or isinstance(want["name"], Unobs) or want["name"] != name:
+        s.cls("original-disagrees-with-model")  # the view itself is wrong (C01 / C03): nothing to round trip against
+        return s
+    # the state of the view on the collection's storage: anything but the whole plus strand is tagged
+    whole = V == full and not comp
+    sig = "collseq" if whole else "collseq" + COLLSEQ_TAG
+    what = f"new-style collection {mt} {seqs} ops {case['coll_ops']} get_seq({name!r}) features {case['features']} history {case['history']}"
+    nofeat = ("features",)
+    round_trips(s, sig, view, observers, what, routes=COLLSEQ_ROUTES, want=want, gate=gate, skip_by_route={"json": nofeat, "rich_dict": nofeat})
+    s.cls("moltype:" + mt, "whole" if whole else "partial-or-reversed", *sorted(flags), *sorted(hflags))
+    if feats:
+        s.cls("features")
+        if not isinstance(want.get("features"), Unobs) and want.get("features"):
+            s.cls("features-visible")
+    s.nontrivial = bool(flags) or "history" in hflags
     return s
 
 
@@ -2570,13 +2705,14 @@ SUBS = [
     Sub("tabular", exec_tabular, strategy=tabular_cases(), quick=800, thorough=64_000, shards_quick=4),
     Sub("profile", exec_profile, strategy=profile_cases(), quick=800, thorough=64_000, shards_quick=4),
     Sub("sequence", exec_seq, strategy=seq_cases(), quick=1200, thorough=160_000, shards_quick=8),
+    Sub("collection_seq", exec_collseq, strategy=collseq_cases(), quick=640, thorough=96_000, shards_quick=8),
     Sub("collection", exec_coll, strategy=coll_cases(), quick=800, thorough=96_000, shards_quick=8),
 ]
 
 KNOWN_PREDICATES = {}
 
 META = {
-    "technique": "Hypothesis-generated objects and pre-serialisation histories; round trip through JSON, rich dict and pickle with type specific observational equality (plus a string model for sequences and collections)",
+    "technique": "Hypothesis-generated objects and pre-serialisation histories; round trip through JSON, rich dict and pickle (copy / deepcopy / the class's own copy() where offered) with type specific observational equality (plus a string model for sequences, sequences handed out by collections, and collections)",
     "level_text": "Per run several thousand generated objects of the registered serialisable types (and of the profile array classes that app results name as members) are brought into a non-fresh state (sliced, strided, reverse complemented, annotated, re-rooted, re-scoped, optimised), observed through harness-written observers, serialised through every route and observed again; alphabets, moltypes, genetic codes and all registered substitution models (codon models also for non-standard genetic codes) are enumerated.",
     "level_note": "Round-trip oracle: trusts the observers (strings, coordinates, features, parameter tables, lnL) to expose differences; registry keys without a generator are listed as uncovered classes.",
     "design_ref": "DESIGN.md section 1, C10",
